@@ -90,17 +90,7 @@ def check_pop_site(ctx, repo, fi, call, discard):
                f"{fi.qual}: {sorted(names)} re-assigned between head read and pop", loc(fi, P.ast))
         facts = g.iter_guard_atoms(P)
         if not discard:
-            want = [t for (t, p) in facts if p and "can_handle(" in t and all(nm in t for nm in names)]
-            ctx.ob("R1", f"{key}::pop-guarded-by-can_handle", bool(want),
-                   f"{fi.qual}: pop at L{P.lineno} is not guarded by can_handle({', '.join(sorted(names))}) on the values read from head; guards are {sorted(facts)}",
-                   loc(fi, P.ast))
-            # head is not None guard
-            nn = [t for (t, p) in facts if (t.endswith(".head is None") and not p)]
-            ctx.ob("R1", f"{key}::head-not-none", bool(nn), f"{fi.qual}: pop not guarded by `{recv}.head is not None`", loc(fi, P.ast))
-            # the same values are handed to the handler after the pop (value flow through
-            # local assignments / tuple packing is followed: `ret = (data, sender)` ... `d, s = ret`)
-            hcalls = [(n, c) for n in g.stmt_nodes() for c in n.calls() if call_name(c) in ("async_handle", "handle")]
-            ok = False
+            # value flow of the inspected head through local assignments / tuple (un)packing
             tainted = {nm: {nm} for nm in names}  # local -> which head values it carries
             changed = True
             while changed:
@@ -116,6 +106,27 @@ def check_pop_site(ctx, repo, fi, call, discard):
                                     if not src <= tainted.get(nm, set()):
                                         tainted.setdefault(nm, set()).update(src)
                                         changed = True
+
+            def carries_head(text):
+                try:
+                    e = ast.parse(text, mode="eval").body
+                except SyntaxError:
+                    return False
+                got = set()
+                for nm in names_in(e):
+                    got |= tainted.get(nm, set())
+                return names <= got
+            want = [t for (t, p) in facts if p and "can_handle(" in t and (all(nm in t for nm in names) or carries_head(t))]
+            ctx.ob("R1", f"{key}::pop-guarded-by-can_handle", bool(want),
+                   f"{fi.qual}: pop at L{P.lineno} is not guarded by can_handle({', '.join(sorted(names))}) on the values read from head; guards are {sorted(facts)}",
+                   loc(fi, P.ast))
+            # head is not None guard
+            nn = [t for (t, p) in facts if (t.endswith(".head is None") and not p)]
+            ctx.ob("R1", f"{key}::head-not-none", bool(nn), f"{fi.qual}: pop not guarded by `{recv}.head is not None`", loc(fi, P.ast))
+            # the same values are handed to the handler after the pop (value flow through
+            # local assignments / tuple packing is followed: `ret = (data, sender)` ... `d, s = ret`)
+            hcalls = [(n, c) for n in g.stmt_nodes() for c in n.calls() if call_name(c) in ("async_handle", "handle")]
+            ok = False
             for n, c in hcalls:
                 carried = set()
                 for a in c.args:
